@@ -19,6 +19,7 @@ import (
 	"sort"
 	"strings"
 	"sync"
+	"sync/atomic"
 	"testing"
 	"time"
 
@@ -211,6 +212,8 @@ func runC08Period(m *vk.M, idx int, sc c08PScenario, mr *miniredis.Miniredis, st
 	}
 }
 
+func c08Wall(m *vk.M, t0 time.Time) { m.Extra("wall_s", time.Since(t0).Round(10*time.Millisecond).Seconds()) }
+
 func c08Trunc(s string, n int) string {
 	if len(s) > n {
 		return s[:n] + "…"
@@ -221,27 +224,41 @@ func c08Trunc(s string, n int) string {
 func TestVerifC08PeriodSeq(t *testing.T) {
 	m := vk.New(t, "C08", "period limiter: every Take code compared with a per-key counter+TTL model; time = miniredis FastForward")
 	defer m.Done()
-	mr, err := miniredis.Run()
-	if err != nil {
-		m.Inconclusive("miniredis: %v", err)
-		return
+	defer c08Wall(m, time.Now())
+	const workers = 4
+	n := vk.N(120, 4000)
+	var wg sync.WaitGroup
+	var next atomic.Int64
+	for w := 0; w < workers; w++ {
+		wg.Add(1)
+		go func() {
+			defer wg.Done()
+			mr, err := miniredis.Run()
+			if err != nil {
+				m.Inconclusive("miniredis: %v", err)
+				return
+			}
+			defer mr.Close()
+			store := redis.New(mr.Addr())
+			for {
+				i := int(next.Add(1)) - 1
+				if i >= n {
+					return
+				}
+				if !m.Only(i) {
+					continue
+				}
+				r := m.Rand("pseq", i)
+				sc := c08GenPeriod(r, 60+r.Intn(vk.N(80, 240)))
+				runC08Period(m, i, sc, mr, store)
+				mr.FlushAll()
+				if i%200 == 0 {
+					m.Progress()
+				}
+			}
+		}()
 	}
-	defer mr.Close()
-	store := redis.New(mr.Addr())
-	n := vk.N(300, 12000)
-	for i := 0; i < n; i++ {
-		if !m.Only(i) {
-			continue
-		}
-		r := m.Rand("pseq", i)
-		sc := c08GenPeriod(r, 60+r.Intn(vk.N(140, 240)))
-		m.Current(fmt.Sprintf("case=%d;%s", i, vk.JSON(sc)))
-		runC08Period(m, i, sc, mr, store)
-		mr.FlushAll()
-		if i%200 == 0 {
-			m.Progress()
-		}
-	}
+	wg.Wait()
 }
 
 // ---------------------------------------------------------------------------
@@ -257,6 +274,7 @@ type c08PObs struct {
 func TestVerifC08PeriodRace(t *testing.T) {
 	m := vk.New(t, "C08", "period limiter under 32 concurrent callers: exact multiset of codes per key and window; real-time order via sequence stamps; race detector")
 	defer m.Done()
+	defer c08Wall(m, time.Now())
 	mr, err := miniredis.Run()
 	if err != nil {
 		m.Inconclusive("miniredis: %v", err)
@@ -265,7 +283,7 @@ func TestVerifC08PeriodRace(t *testing.T) {
 	defer mr.Close()
 	store := redis.New(mr.Addr())
 	const G = 32
-	rounds := vk.N(25, 400)
+	rounds := vk.N(10, 150)
 	for i := 0; i < rounds; i++ {
 		if !m.Only(i) {
 			continue
@@ -274,7 +292,7 @@ func TestVerifC08PeriodRace(t *testing.T) {
 		period := []int{1, 2, 5, 60}[r.Intn(4)]
 		quota := 1 + r.Intn(40)
 		nkeys := 1 + r.Intn(3)
-		per := 1 + r.Intn(4)
+		per := 1 + r.Intn(3)
 		desc := fmt.Sprintf("case=%d;{\"period\":%d,\"quota\":%d,\"keys\":%d,\"goroutines\":%d,\"takes_each\":%d,\"waves\":\"w1, ff(period-1ms), w2, ff(1ms), w3\"}", i, period, quota, nkeys, G, per)
 		m.Current(desc)
 		pl := NewPeriodLimit(period, quota, store, fmt.Sprintf("c08r%d:", i))
